@@ -49,11 +49,11 @@ type FamItem struct {
 }
 
 type FamilySpec struct {
-	Name    string
-	Labels  []string
-	Guard   *Node
+	Name     string
+	Labels   []string
+	Guard    *Node
 	GuardSrc string
-	Items   []FamItem
+	Items    []FamItem
 	// stop: stage-1 cut at the n-th dynamic call of Callee: value === tenth(Spec), Lo <= Spec <= Hi
 	StopCallee string
 	StopOrd    int
@@ -102,32 +102,32 @@ type LoopSpec struct {
 }
 
 type Contract struct {
-	Key       string
-	Alias     string
-	Header    string
-	Recv      string
-	Params    []string
-	Results   []string
-	Requires  []*Clause
-	Ensures   []*Clause
-	Modifies  []*Node
-	ModNothing bool
-	HasMod    bool
-	Splits    []*SplitSpec
-	Families  []*FamilySpec
-	Scenarios []*ScenarioSpec
-	CallGhosts []*CallGhost
-	SplitCalls []*SplitCall
-	Cuts      []*CutSpec
-	Grid      *[2]int
-	GridLabel string
-	Inline    bool
-	Abstract  bool // the general contract is an abstraction; only the scenarios are executed on the body
+	Key          string
+	Alias        string
+	Header       string
+	Recv         string
+	Params       []string
+	Results      []string
+	Requires     []*Clause
+	Ensures      []*Clause
+	Modifies     []*Node
+	ModNothing   bool
+	HasMod       bool
+	Splits       []*SplitSpec
+	Families     []*FamilySpec
+	Scenarios    []*ScenarioSpec
+	CallGhosts   []*CallGhost
+	SplitCalls   []*SplitCall
+	Cuts         []*CutSpec
+	Grid         *[2]int
+	GridLabel    string
+	Inline       bool
+	Abstract     bool // the general contract is an abstraction; only the scenarios are executed on the body
 	ThoroughOnly bool // expensive symbolic contract: thorough tier only
-	Summary   bool // result as a term of the parameters, exported to the contract language as fn_<key>
-	Trusted   bool
-	Loops     map[int]*LoopSpec
-	Where     string
+	Summary      bool // result as a term of the parameters, exported to the contract language as fn_<key>
+	Trusted      bool
+	Loops        map[int]*LoopSpec
+	Where        string
 }
 
 type Pred struct {
